@@ -378,3 +378,16 @@ pub fn new_block_cache(
         Arc<crate::tables::block::DataBlockReader>,
     >::new(capacity))
 }
+
+/**
+Drive a filter block builder the way the table builder does and question the resulting filter
+block: `blocks[i]` is `(file offset at which data block i starts, user keys stored in it)`. The
+keys of a block are added, then the builder is notified of the offset of the next block. Returns,
+per block and key, the answer of the filter block reader for `(offset of the block, key)`.
+*/
+pub fn filter_block_roundtrip(
+    filter_policy: Arc<dyn crate::FilterPolicy>,
+    blocks: &[(u64, Vec<Vec<u8>>)],
+) -> Result<Vec<Vec<bool>>, String> {
+    crate::tables::verif_filter_block_roundtrip(filter_policy, blocks)
+}
